@@ -38,9 +38,13 @@ EXTRA = {
     "ANDEEP": ("are_named", ["r.a.x.deeper"]),     # too deep
     "RXNO": ("have_name_matching", r"zz.*"),       # regex matching nothing
     "CONT": ("have_name_containing", ["*a", "r.b"]),
+    "CONTNO": ("have_name_containing", ["*a", "zz*"]),     # one partial name matches, the other matches nothing
 }
 ALLSYMS = {**SYMS, **EXTRA}
 ORDER = list(SYMS)
+
+
+UNDEFINED_SYMS = {"ANZ", "ANDEEP", "RXNO", "CONTNO"}     # mention a module / pattern that denotes nothing in NODES
 
 
 def py_spec_accepts(hist) -> bool:
@@ -75,6 +79,27 @@ def py_spec_accepts(hist) -> bool:
     if anything and verbs != {"should_not"}:
         return False
     return True
+
+
+def undefined_in_effect(hist) -> bool:
+    """Does the module list that is finally in effect on either side come from an UNDEFINED_SYMS call?
+    (A later list replaces an earlier one on the same side; once an 'anything' import type has been
+    chosen the object list is replaced by the subjects themselves, so object lists are not in effect.)"""
+    side = None
+    anything = False
+    last = {"S": None, "O": None}
+    for s in hist:
+        meth = ALLSYMS[s][0]
+        if meth == "modules_that":
+            side = "S"
+        elif meth in ("are_named", "are_sub_modules_of", "have_name_matching", "have_name_containing"):
+            if side is not None:
+                last[side] = s
+        elif meth.startswith("import") or meth.startswith("be_imported"):
+            side = "O"
+            if meth.endswith("anything"):
+                anything = True
+    return last["S"] in UNDEFINED_SYMS or (not anything and last["O"] in UNDEFINED_SYMS)
 
 
 def run_history_impl(hist, arch):
@@ -139,6 +164,9 @@ def _job(hists):
         if not acc_py and io[0] in ("PASS", "FAIL"):
             viol.append((case, f"incomplete/contradictory history {list(h)} produced the verdict {io[0]}", {"kind": "history"}))
             continue
+        if acc_py and io[0] in ("PASS", "FAIL") and undefined_in_effect(h):
+            viol.append((case, f"history {list(h)} mentions a module name / pattern that denotes nothing, yet produced the verdict {io[0]}", {"kind": "undefined_name"}))
+            continue
         if acc_py != acc_coq:
             disag.append((case, f"specification automata disagree (python {acc_py}, coq {acc_coq}) on {list(h)}"))
         if not rules.same_verdict(io, mo) or not rules.same_lines(io, mo):
@@ -155,6 +183,7 @@ COMPLETE_CHAINS = [
     ["MT", "ANA", "SN", "IA"], ["MT", "ANB", "SN", "BIA"], ["MT", "RX", "SH", "BIX", "ANA"],
     ["MT", "ANA", "SH", "IM", "RX"], ["MT", "CONT", "SN", "IM", "ANB"], ["MT", "ANA", "SO", "IMX", "SUBA"],
     ["MT", "ANA", "SH", "SO", "IM", "ANB"], ["MT", "ANA", "MT", "ANB", "SH", "IM", "ANA"],
+    ["MT", "CONTNO", "SN", "IM", "ANB"], ["MT", "ANA", "SH", "BI", "CONTNO"],
 ]
 
 
